@@ -33,7 +33,7 @@ def c04(tier):
                      "preemption granularity = every shim operation (mutex, condvar, state-byte atomic) plus explicit points inside managed steps, natives and the operation body"])
 
 
-CHECKS = {"C12": c12, "C04": c04, "C03": props_b.c03, "C09": props_b.c09_tier_b, "C14": tier_c.c14, "C13": props_b.c13, "C15": tier_c.c15}
+CHECKS = {"C12": c12, "C04": c04, "C03": props_b.c03, "C09": props_b.c09_tier_b, "C14": tier_c.c14, "C13": props_b.c13, "C15": tier_c.c15, "C18": tier_c.c18}
 REPLAY = {"C12": lambda path: tier_a.replay_tier_a("term", path),
           "C04": lambda path: tier_a.replay_tier_a("stw", path),
           "C03": tier_b.replay_file, "C09": tier_b.replay_file, "C14": tier_c.c14_replay, "C13": tier_b.replay_file}
